@@ -3,49 +3,7 @@
  * Which body invocations throw is symbolic (THROW mask). */
 #include "w.h"
 #include "vp.h"
-VP_DEFINE_EPTR_STUBS(struct S_class_std____exception_ptr__exception_ptr)
-u32 _ZSt19uncaught_exceptionsv(void) { return 0; }
-/* ---- oneTBB entry points outside this unit */
-int n_alloc_mem, n_free_mem;
-/* allocation: the 64-entry task pool (512 bytes) is handed out as a pointer-typed array (cbmc keeps arrays of <= 64 elements
-   field-sensitive, so task pointers read back from the pool stay concrete during symbolic execution); everything else is a
-   malloc'ed object (<= 256 bytes: --max-field-sensitivity-array-size 256 keeps vptrs readable) */
-#define NPOOL 2
-struct S_class_tbb__detail__d1__task* vp_pool[NPOOL][64] __attribute__((aligned(128))); int vp_pool_used;
-u8* _ZN3tbb6detail2r122cache_aligned_allocateEm(u64 n) {
-  if (n == 512) { VP_ASSERT(vp_pool_used < NPOOL, "VP bound: task pools"); return (u8*)vp_pool[vp_pool_used++]; }
-  VP_ASSERT(n <= 256, "VP bound: allocation larger than expected in this scenario");
-  u8* p = malloc(n); __CPROVER_assume(p != 0); return p; }
-void _ZN3tbb6detail2r124cache_aligned_deallocateEPv(u8* p) {
-  for (int i = 0; i < NPOOL; i++) if (p == (u8*)vp_pool[i]) return;
-  free(p); }
-u8* _ZN3tbb6detail2r115allocate_memoryEm(u64 n) { u8* p = malloc(n); __CPROVER_assume(p != 0); n_alloc_mem++; return p; }
-void _ZN3tbb6detail2r117deallocate_memoryEPv(u8* p) { n_free_mem++; free(p); }
-/* task storage (r1::allocate / r1::deallocate, small_object_pool.cpp is outside the unit): plain heap objects of the requested
-   size; the pool handle only has to be non-null; allocations and releases are counted for the leak/double-free oracle */
-int n_task_alloc, n_task_free; u8 vp_pool_token;
-u8* _ZN3tbb6detail2r18allocateERPNS0_2d117small_object_poolEm(struct S_class_tbb__detail__d1__small_object_pool** pool, u64 n) {
-  u8* p = malloc(n); __CPROVER_assume(p != 0); *pool = (struct S_class_tbb__detail__d1__small_object_pool*)&vp_pool_token; n_task_alloc++; return p; }
-u8* _ZN3tbb6detail2r18allocateERPNS0_2d117small_object_poolEmRKNS2_14execution_dataE(struct S_class_tbb__detail__d1__small_object_pool** pool, u64 n, struct S_struct_tbb__detail__d1__execution_data* ed) {
-  return _ZN3tbb6detail2r18allocateERPNS0_2d117small_object_poolEm(pool, n); }
-void _ZN3tbb6detail2r110deallocateERNS0_2d117small_object_poolEPvmRKNS2_14execution_dataE(struct S_class_tbb__detail__d1__small_object_pool* pool, u8* p, u64 n, struct S_struct_tbb__detail__d1__execution_data* ed) { n_task_free++; free(p); }
-void _ZN3tbb6detail2r110deallocateERNS0_2d117small_object_poolEPvm(struct S_class_tbb__detail__d1__small_object_pool* pool, u8* p, u64 n) { n_task_free++; free(p); }
-void _ZdlPv(u8* p) { free(p); }
-void _ZdlPvSt11align_val_t(u8* p, u64 a) { free(p); }
-u8* vpx_pthread_getspecific(u32 k) { return vp_tls(); }
-u64 _ZN3tbb6detail2r127global_control_active_valueEi(u32 p) { return 0; }
-u8 _ZN3tbb6detail2r122terminate_on_exceptionEv(void) { return 0; }
-u64 _ZN3tbb6detail2r115cache_line_sizeEv(void) { return 128; }
-void _ZN3tbb6detail2r15arena15request_workersEiib(struct S_class_tbb__detail__r1__arena* a, u32 m, u32 w, u8 k) {}
-void _ZN3tbb6detail2r15arena11out_of_workEv(struct S_class_tbb__detail__r1__arena* a) {}
-void _ZN3tbb6detail2r113observer_list25do_notify_entry_observersERPNS1_14observer_proxyEb(struct S_class_tbb__detail__r1__observer_list* l, struct S_class_tbb__detail__r1__observer_proxy** p, u8 w) {}
-/* receive_or_steal_task is cut: with one thread and every task in the local pool, the real function is entered only when the
-   pool is empty although the wait is not released - the real dispatcher would spin there forever */
-#define ROS(name, RW) struct S_class_tbb__detail__d1__task* name(struct S_class_tbb__detail__r1__task_dispatcher* d, struct S_class_tbb__detail__r1__thread_data* td, \
-   struct S_struct_tbb__detail__r1__execution_data_ext* ed, RW* w, u64 iso, u8 fifo, u8 crit) { \
-   VP_ASSERT(0, "dispatcher has no local work left but the wait is not released (lost task or unreleased wait reference): would spin forever"); return 0; }
-ROS(_ZN3tbb6detail2r115task_dispatcher21receive_or_steal_taskILb0ENS1_15external_waiterEEEPNS0_2d14taskERNS1_11thread_dataERNS1_18execution_data_extERT0_lbb, struct S_class_tbb__detail__r1__external_waiter)
-ROS(_ZN3tbb6detail2r115task_dispatcher21receive_or_steal_taskILb0ENS1_16coroutine_waiterEEEPNS0_2d14taskERNS1_11thread_dataERNS1_18execution_data_extERT0_lbb, struct S_class_tbb__detail__r1__coroutine_waiter)
+#include "h_stubs.h"
 
 /* ---- observers / oracle state.  Body ids: group 0: 0..N-1 (SCEN 2: N = the run_and_wait body; SCEN 3: 0,1 outer), inner group: 10.., reuse: 100 */
 u32 THROW;                       /* bit per body id (see bit()) */
@@ -65,10 +23,14 @@ static int grp(u32 i) {
 }
 void vp_body(u32 i) {
   int g = grp(i);
+  VP_ASSERT(i < 128, "VP: body id");
   VP_ASSERT(runs[i] == 0, "a task body ran twice");
   runs[i]++;
   VP_ASSERT(!wait_seen[g], "a body of the group started after the wait for that group had returned");
   VP_ASSERT(!grp_threw[g], "a body started although an exception of the same group had already been captured (group not cancelled)");
+#if SCEN == 3
+  if (g == 1) VP_ASSERT(!grp_threw[0], "a body of the nested group started although the enclosing group had already captured an exception");
+#endif
 #if SCEN == 1
   if (i == 100) VP_ASSERT(wait_seen[0] == 1, "reuse body ran before the first wait returned");
 #endif
@@ -77,8 +39,14 @@ void vp_body(u32 i) {
     vp_throw_user(&ti_user); thrown[nthrown] = vp_exc; thrown_grp[nthrown] = g; nthrown++; grp_threw[g] = 1;
   }
 }
-void vp_note(u32 what, u32 g) { if (what == 1) caught_at_wait[g] = vp_exc_current(); }
-void vp_wait_result(u32 g, u32 st, u32 threw) {
+void vp_note(u32 what, u32 g) {
+  if (what == 1) caught_at_wait[g] = vp_exc_current();
+#if SCEN == 3
+  /* the enclosing task lets the inner wait's exception escape: it becomes an exception of the enclosing group's work */
+  if (what == 2) { grp_threw[0] = 1; VP_ASSERT(nthrown < MAXT, "VP bound: number of throws"); thrown[nthrown] = vp_exc_current(); thrown_grp[nthrown] = 0; nthrown++; }
+#endif
+}
+void vp_wait_result(u32 g, u32 st, u32 threw, u32 cancelled_after) {
   wait_seen[g]++; wait_status[g] = (int)st; wait_threw[g] = (int)threw;
   VP_ASSERT(wait_seen[g] == 1, "wait reported twice");
   VP_ASSERT((int)threw == grp_threw[g], "wait must rethrow iff work of the group threw (exception swallowed or invented)");
@@ -89,44 +57,43 @@ void vp_wait_result(u32 g, u32 st, u32 threw) {
   } else {
     VP_ASSERT(st == 1, "wait without exception/cancellation must report complete");
   }
+  VP_ASSERT(!cancelled_after, "the group's context is still cancelled after wait (group not reusable)");
+  VP_ASSERT(vp_pool_left() == 0 || (SCEN == 3 && g == 1), "tasks left in the pool when the wait returned");
   grp_threw[g] = 0;   /* the group is reusable from here on */
 }
-/* arena block as allocate_arena lays it out: [mail_outbox x 2][arena incl. slot 0][slot 1][task_dispatcher x 2], zero-initialised */
-struct { struct S_class_tbb__detail__r1__mail_outbox mb[2]; struct S_class_tbb__detail__r1__arena a; struct S_class_tbb__detail__r1__arena_slot s1; } vp_block __attribute__((aligned(128)));
-struct S_class_tbb__detail__r1__task_dispatcher vp_disp0 __attribute__((aligned(128))), vp_disp1 __attribute__((aligned(128)));
-struct S_class_tbb__detail__r1__thread_data vp_td_obj __attribute__((aligned(128)));
-struct S_class_tbb__detail__r1__cancellation_disseminator vp_cd_obj __attribute__((aligned(64)));
-struct S_class_tbb__detail__r1__thread_control_monitor vp_mon_obj __attribute__((aligned(64)));
 int main(void) {
-  VP_ASSERT(sizeof(vp_block.mb[0]) == vp_sizeof(0) && sizeof(vp_block.a) == vp_sizeof(1) && sizeof(vp_block.s1) == vp_sizeof(2) &&
-            sizeof(vp_disp0) == vp_sizeof(3) && sizeof(vp_td_obj) == vp_sizeof(4) && sizeof(vp_cd_obj) == vp_sizeof(5) && sizeof(vp_mon_obj) == vp_sizeof(6), "generated struct layout differs from the C++ layout");
-  VP_ASSERT((u8*)&vp_block.s1 == (u8*)&vp_block.a + vp_sizeof(1), "arena block layout");
-  THROW = (u32)vp_nd_range(0, 255);
-  vp_setup((u8*)&vp_block.a, (u8*)&vp_td_obj, (u8*)&vp_cd_obj, (u8*)&vp_disp0, (u8*)&vp_disp1, (u8*)&vp_mon_obj);
+#if SCEN == 1
+#define TMASK (((1u << N) - 1) | (REUSE ? 0x80u : 0u))
+#elif SCEN == 2
+#define TMASK ((1u << (N + 1)) - 1)
+#elif SCEN == 3
+#define TMASK (3u | (((1u << N) - 1) << 4))
+#else
+#define TMASK 1u
+#endif
+  THROW = (u32)vp_nd_range(0, 255) & TMASK;      /* which body invocations throw: every subset */
+  vp_world_setup();
 #if SCEN == 0
   vp_probe(N);
 #elif SCEN == 1
-  __CPROVER_assume((THROW & ~((1u << N) - 1) & ~(REUSE ? 0x80u : 0u)) == 0);
   vp_tg(N, REUSE);
   for (int i = 0; i < N; i++) VP_ASSERT(runs[i] == 1 || nthrown > 0, "a task was skipped although nothing was cancelled");
   if (REUSE) { VP_ASSERT(wait_seen[1] == 1, "second wait missing"); VP_ASSERT(runs[100] == 1, "group not reusable after the wait: new task was not run"); }
 #elif SCEN == 2
-  __CPROVER_assume((THROW & ~((1u << (N + 1)) - 1)) == 0);
   vp_tg_raw(N);
   for (int i = 0; i <= N; i++) VP_ASSERT(runs[i] == 1 || nthrown > 0, "a task was skipped although nothing was cancelled");
 #elif SCEN == 3
-  __CPROVER_assume((THROW & ~(3u | (((1u << N) - 1) << 4))) == 0);
-  vp_tg_nested(N);
+  vp_tg_nested(N, CATCH);
   VP_ASSERT(wait_seen[1] <= 1, "inner wait");
+  for (int i = 0; i < 2; i++) VP_ASSERT(runs[i] == 1 || nthrown > 0, "a task was skipped although nothing was cancelled");
 #endif
 #if SCEN != 0
   VP_ASSERT(wait_seen[0] == 1, "the wait must return exactly once");
   VP_ASSERT(vp_exc == 0, "pending exception left behind");
   VP_ASSERT(vp_pool_left() == 0, "tasks left in the pool after the wait");
   VP_ASSERT(vp_exc_destroyed == vp_exc_thrown, "an exception object was leaked or destroyed twice");
-  VP_ASSERT(n_alloc_mem == n_free_mem, "tbb_exception_ptr storage leaked or freed twice");
+  VP_ASSERT(n_eptr_alloc == n_eptr_free, "tbb_exception_ptr storage leaked or freed twice");
   VP_ASSERT(n_task_alloc == n_task_free, "a task object was leaked or released twice");
-  VP_ASSERT(vp_rethrows == nthrown, "each captured exception is rethrown exactly once");
 #endif
   VP_REACHED();
   return 0;
